@@ -65,23 +65,23 @@ macro_rules! axle_new {
     };
 }
 
-//@ob fn="Axle::new" at=src/devices.rs:255 bounded="N=0" clause="N=0: constructs without touching memory out of range (empty MaybeUninit array read out as empty array); no panic"
+//@ob fn="Axle::new" at=src/devices.rs:255 instance="N=0" clause="N=0: constructs without touching memory out of range (empty MaybeUninit array read out as empty array); no panic"
 axle_new!(c16_axle_new_n0, 0, 3);
-//@ob fn="Axle::new" at=src/devices.rs:255 bounded="N=1" clause="N=1: every one of the N terminals get_terminal(i), i<N, is the i-th array element and is completely initialised: unlinked, no state/command request, follows nothing, RefCell not borrowed, all three reads Ok(None) -- for every content of the MaybeUninit scratch array before the writes; no out-of-bounds / invalid-pointer access (Kani memory checks), unwinding assertions on"
+//@ob fn="Axle::new" at=src/devices.rs:255 instance="N=1" clause="N=1: every one of the N terminals get_terminal(i), i<N, is the i-th array element and is completely initialised: unlinked, no state/command request, follows nothing, RefCell not borrowed, all three reads Ok(None) -- for every content of the MaybeUninit scratch array before the writes; no out-of-bounds / invalid-pointer access (Kani memory checks), unwinding assertions on"
 axle_new!(c16_axle_new_n1, 1, 4);
-//@ob fn="Axle::new" at=src/devices.rs:255 bounded="N=2" clause="N=2: as c16_axle_new_n1; additionally distinct indices are distinct cells"
+//@ob fn="Axle::new" at=src/devices.rs:255 instance="N=2" clause="N=2: as c16_axle_new_n1; additionally distinct indices are distinct cells"
 axle_new!(c16_axle_new_n2, 2, 5);
-//@ob fn="Axle::new" at=src/devices.rs:255 bounded="N=3" clause="N=3: as c16_axle_new_n2"
+//@ob fn="Axle::new" at=src/devices.rs:255 instance="N=3" clause="N=3: as c16_axle_new_n2"
 axle_new!(c16_axle_new_n3, 3, 6);
-//@ob fn="Axle::new" at=src/devices.rs:255 bounded="N=4" clause="N=4: as c16_axle_new_n2"
+//@ob fn="Axle::new" at=src/devices.rs:255 instance="N=4" clause="N=4: as c16_axle_new_n2"
 axle_new!(c16_axle_new_n4, 4, 7);
-//@ob fn="Axle::new" at=src/devices.rs:255 bounded="N=5" clause="N=5: as c16_axle_new_n2"
+//@ob fn="Axle::new" at=src/devices.rs:255 instance="N=5" clause="N=5: as c16_axle_new_n2"
 axle_new!(c16_axle_new_n5, 5, 8);
-//@ob fn="Axle::new" at=src/devices.rs:255 bounded="N=6" clause="N=6: as c16_axle_new_n2"
+//@ob fn="Axle::new" at=src/devices.rs:255 instance="N=6" clause="N=6: as c16_axle_new_n2"
 axle_new!(c16_axle_new_n6, 6, 9);
-//@ob fn="Axle::new" at=src/devices.rs:255 bounded="N=7" clause="N=7: as c16_axle_new_n2"
+//@ob fn="Axle::new" at=src/devices.rs:255 instance="N=7" clause="N=7: as c16_axle_new_n2"
 axle_new!(c16_axle_new_n7, 7, 10);
-//@ob fn="Axle::new" at=src/devices.rs:255 bounded="N=8" clause="N=8: as c16_axle_new_n2"
+//@ob fn="Axle::new" at=src/devices.rs:255 instance="N=8" clause="N=8: as c16_axle_new_n2"
 axle_new!(c16_axle_new_n8, 8, 11);
 
 macro_rules! axle_oob {
@@ -102,9 +102,9 @@ macro_rules! axle_oob {
     };
 }
 
-//@ob fn="Axle::get_terminal" at=src/devices.rs:271 bounded="N=0" clause="N=0, every index: panics (index out of bounds) instead of reading out of range; no memory-safety check fails"
+//@ob fn="Axle::get_terminal" at=src/devices.rs:271 instance="N=0" clause="N=0, every index: panics (index out of bounds) instead of reading out of range; no memory-safety check fails"
 axle_oob!(c16_axle_get_terminal_out_of_range_panics_n0, 0, 3);
-//@ob fn="Axle::get_terminal" at=src/devices.rs:271 bounded="N=3" clause="N=3, every index i >= 3 up to usize::MAX: panics (index out of bounds) instead of reading out of range; no memory-safety check fails"
+//@ob fn="Axle::get_terminal" at=src/devices.rs:271 instance="N=3" clause="N=3, every index i >= 3 up to usize::MAX: panics (index out of bounds) instead of reading out of range; no memory-safety check fails"
 axle_oob!(c16_axle_get_terminal_out_of_range_panics_n3, 3, 6);
-//@ob fn="Axle::get_terminal" at=src/devices.rs:271 bounded="N=8" clause="N=8, every index i >= 8 up to usize::MAX: panics (index out of bounds) instead of reading out of range; no memory-safety check fails"
+//@ob fn="Axle::get_terminal" at=src/devices.rs:271 instance="N=8" clause="N=8, every index i >= 8 up to usize::MAX: panics (index out of bounds) instead of reading out of range; no memory-safety check fails"
 axle_oob!(c16_axle_get_terminal_out_of_range_panics_n8, 8, 11);
